@@ -5,25 +5,22 @@
    the single token TErr 1.  ParseError codes: 0x14 InvalidDigit(c), 0x15 InvalidRadix(r),
    0x16 BaseConvertError (1 Overflow / 2 InvalidBase b / 3 InvalidDigit d b).
 
-   `obs : list (list Z)` = the observed result of the inherent call on the same operands, for
-   inherent methods treated as opaque (pow, gcd, lcm, from_str_radix, and the pure forwarders to
-   mul, div, rem, inv_ring; MulAdd and is_multiple_of use the real Mul.v / UDiv.v models).
-   Encoding: [[0]] panicked; [[1]; x] Uint; [[2]] None; [[3]; x] Some;
-   [[4]; x; [flag]] (Uint, bool); [[5]; x; y]; [[6]; x; y; z]; [7 :: code :: args] Err.
+   Every inherent method has a model in /verif: `run` predicts both sides from the operands alone.
+   Text arguments are UTF-8 byte lists (token Y); run decodes them into chars (Str.utf8_decode).
 
    Selector arguments: `shape` = operator impl shape (see Model/Facade.v), `ty` = primitive
    type code, `k` = method selector (documented at each constructor). *)
 From RV.Model Require Import Base Word.
-From RV.Model Require Add Shift Bits Conv Bytes Mul UDiv Facade.
+From RV.Model Require Add Shift Bits Conv Bytes Mul UDiv Pow Gcd BaseConv Str Facade.
 Import Facade.
 
 Inductive call : Type :=
 (* --- core::ops on Uint (src/macros.rs impl_bin_op!, src/bits.rs, src/add.rs) --- *)
 | op_add (bits shape : Z) (a b : list Z)
 | op_sub (bits shape : Z) (a b : list Z)
-| op_mul (bits shape : Z) (a b : list Z) (obs : list (list Z))
-| op_div (bits shape : Z) (a b : list Z) (obs : list (list Z))
-| op_rem (bits shape : Z) (a b : list Z) (obs : list (list Z))
+| op_mul (bits shape : Z) (a b : list Z)
+| op_div (bits shape : Z) (a b : list Z)
+| op_rem (bits shape : Z) (a b : list Z)
 | op_neg (bits shape : Z) (a : list Z)                   (* 0: -x, 1: -&x *)
 | op_not (bits shape : Z) (a : list Z)                   (* 0: !x, 1: !&x *)
 | op_bitor (bits shape : Z) (a b : list Z)
@@ -35,7 +32,7 @@ Inductive call : Type :=
 | op_shr_uint (bits shape : Z) (a k : list Z)
 (* --- Sum / Product: shape 0 by value, 1 by reference --- *)
 | it_sum (bits shape : Z) (xs : list (list Z))
-| it_product (bits shape : Z) (xs : list (list Z)) (obs : list (list Z))
+| it_product (bits shape : Z) (xs : list (list Z))
 (* --- ruint::Bits --- *)
 | bw_reverse_bits (bits : Z) (a : list Z)
 | bw_not (bits shape : Z) (a : list Z)
@@ -53,8 +50,8 @@ Inductive call : Type :=
 | bw_try_from_le_slice (bits : Z) (bs : list Z)
 | bw_from_be_bytes (bits : Z) (bs : list Z)
 | bw_from_le_bytes (bits : Z) (bs : list Z)
-| bw_from_str_radix (bits radix : Z) (text : list Z) (obs : list (list Z))
-| bw_from_str (bits : Z) (text : list Z) (obs : list (list Z))
+| bw_from_str_radix (bits radix : Z) (text : list Z)
+| bw_from_str (bits : Z) (text : list Z)
 | bw_from_limbs (bits : Z) (l : list Z)
 | bw_ident (bits k : Z) (a : list Z)                     (* into_inner, as_uint, as_uint_mut, Uint::from, as_limbs, as_limbs_mut, clone *)
 | bw_consts (bits : Z)                                   (* LIMBS, BITS, BYTES, ZERO, default() *)
@@ -75,32 +72,32 @@ Inductive call : Type :=
 | nt_to_be_bytes (bits : Z) (a : list Z)
 | nt_checked_add (bits : Z) (a b : list Z)
 | nt_checked_sub (bits : Z) (a b : list Z)
-| nt_checked_mul (bits : Z) (a b : list Z) (obs : list (list Z))
-| nt_checked_div (bits : Z) (a b : list Z) (obs : list (list Z))
-| nt_checked_rem (bits : Z) (a b : list Z) (obs : list (list Z))
-| nt_checked_div_euclid (bits : Z) (a b : list Z) (obs : list (list Z))
-| nt_checked_rem_euclid (bits : Z) (a b : list Z) (obs : list (list Z))
+| nt_checked_mul (bits : Z) (a b : list Z)
+| nt_checked_div (bits : Z) (a b : list Z)
+| nt_checked_rem (bits : Z) (a b : list Z)
+| nt_checked_div_euclid (bits : Z) (a b : list Z)
+| nt_checked_rem_euclid (bits : Z) (a b : list Z)
 | nt_checked_neg (bits : Z) (a : list Z)
 | nt_checked_shl (bits : Z) (a : list Z) (n : Z)
 | nt_checked_shr (bits : Z) (a : list Z) (n : Z)
-| nt_div_euclid (bits : Z) (a b : list Z) (obs : list (list Z))
-| nt_rem_euclid (bits : Z) (a b : list Z) (obs : list (list Z))
-| nt_inv (bits : Z) (a : list Z) (obs : list (list Z))
+| nt_div_euclid (bits : Z) (a b : list Z)
+| nt_rem_euclid (bits : Z) (a b : list Z)
+| nt_inv (bits : Z) (a : list Z)
 | nt_mul_add (bits shape : Z) (a b c : list Z)          (* 0 MulAdd, 1 MulAddAssign *)
 | nt_saturating_add (bits k : Z) (a b : list Z)          (* 0 Saturating (by value), 1 SaturatingAdd (by reference) *)
 | nt_saturating_sub (bits k : Z) (a b : list Z)
-| nt_saturating_mul (bits : Z) (a b : list Z) (obs : list (list Z))
+| nt_saturating_mul (bits : Z) (a b : list Z)
 | nt_wrapping_add (bits : Z) (a b : list Z)
 | nt_wrapping_sub (bits : Z) (a b : list Z)
-| nt_wrapping_mul (bits : Z) (a b : list Z) (obs : list (list Z))
+| nt_wrapping_mul (bits : Z) (a b : list Z)
 | nt_wrapping_neg (bits : Z) (a : list Z)
 | nt_wrapping_shl (bits : Z) (a : list Z) (n : Z)
 | nt_wrapping_shr (bits : Z) (a : list Z) (n : Z)
 | nt_overflowing_add (bits : Z) (a b : list Z)
 | nt_overflowing_sub (bits : Z) (a b : list Z)
-| nt_overflowing_mul (bits : Z) (a b : list Z) (obs : list (list Z))
-| nt_from_str_radix (bits radix : Z) (text : list Z) (obs : list (list Z))
-| nt_pow (bits : Z) (a e : list Z) (obs : list (list Z))
+| nt_overflowing_mul (bits : Z) (a b : list Z)
+| nt_from_str_radix (bits radix : Z) (text : list Z)
+| nt_pow (bits : Z) (a e : list Z)
 | nt_to_prim (bits ty : Z) (a : list Z)                  (* ty (Conv.prim_of_code): 10 i64, 4 u64, 11 i128, 5 u128 *)
 | nt_from_prim (bits ty : Z) (n : Z)
 | nt_numcast (bits ty : Z) (n : Z)                       (* ty 1..12: every primitive integer type *)
@@ -117,16 +114,16 @@ Inductive call : Type :=
 | nt_to_le (bits : Z) (a : list Z)
 | nt_from_le (bits : Z) (a : list Z)
 | nt_reverse_bits (bits : Z) (a : list Z)
-| nt_pow_u32 (bits : Z) (a : list Z) (n : Z) (obs : list (list Z))   (* obs of x.pow(U::from(n)) *)
+| nt_pow_u32 (bits : Z) (a : list Z) (n : Z)
 (* --- num-integer --- *)
-| ni_div_floor (bits : Z) (a b : list Z) (obs : list (list Z))
-| ni_mod_floor (bits : Z) (a b : list Z) (obs : list (list Z))
-| ni_gcd (bits : Z) (a b : list Z) (obs : list (list Z))
-| ni_lcm (bits : Z) (a b : list Z) (obs : list (list Z))
-| ni_div_ceil (bits : Z) (a b : list Z) (obs : list (list Z))
-| ni_div_rem (bits : Z) (a b : list Z) (obs : list (list Z))
-| ni_div_mod_floor (bits : Z) (a b : list Z) (obs : list (list Z))
-| ni_extended_gcd (bits : Z) (a b : list Z) (obs : list (list Z))
+| ni_div_floor (bits : Z) (a b : list Z)
+| ni_mod_floor (bits : Z) (a b : list Z)
+| ni_gcd (bits : Z) (a b : list Z)
+| ni_lcm (bits : Z) (a b : list Z)
+| ni_div_ceil (bits : Z) (a b : list Z)
+| ni_div_rem (bits : Z) (a b : list Z)
+| ni_div_mod_floor (bits : Z) (a b : list Z)
+| ni_extended_gcd (bits : Z) (a b : list Z)
 | ni_is_multiple_of (bits : Z) (a b : list Z)
 | ni_is_even (bits : Z) (a : list Z)
 | ni_is_odd (bits : Z) (a : list Z)
@@ -142,29 +139,6 @@ Inductive call : Type :=
 (* --- zeroize: 0 Uint, 1 Bits --- *)
 | zz_zeroize (bits k : Z) (a : list Z).
 
-(* ---------- observed results ---------- *)
-Definition side_of_obs (obs : list (list Z)) : side :=
-  match obs with
-  | [[0]] => Panic
-  | [[1]; x] => Val [TL x]
-  | [[2]] => Val [TNone]
-  | [[3]; x] => Val [TSome; TL x]
-  | [[4]; x; [f]] => Val [TL x; TB (negb (f =? 0))]
-  | [[5]; x; y] => Val [TL x; TL y]
-  | [[6]; x; y; z] => Val [TL x; TL y; TL z]
-  | [7 :: code :: args] => Val (TErr code :: map TZ args)
-  | _ => DebugPanic
-  end.
-Definition obs_okb (bits : Z) (obs : list (list Z)) : bool :=
-  match obs with
-  | [[0]] | [[2]] => true
-  | [[1]; x] | [[3]; x] | [[4]; x; [_]] => canonb bits x
-  | [[5]; x; y] => canonb bits x && canonb bits y
-  | [[6]; x; y; z] => canonb bits x && canonb bits y && canonb bits z
-  | [7 :: code :: args] => 2 <=? code
-  | _ => false
-  end.
-
 (* ---------- printing the two sides ---------- *)
 Definition oU (o : outcome (list Z)) : side := omap (fun v => [TL v]) o.
 Definition oOpt (o : outcome (option (list Z))) : side := omap opt_toks o.
@@ -172,6 +146,27 @@ Definition oOptZ (o : outcome (option Z)) : side := omap optz_toks o.
 Definition oB (o : outcome bool) : side := omap (fun b => [TB b]) o.
 Definition oZ (o : outcome Z) : side := omap (fun z => [TZ z]) o.
 Definition oY (o : outcome (list Z)) : side := omap (fun v => [TY v]) o.
+Definition oPair (o : outcome (list Z * list Z)) : side := omap (fun p => [TL (fst p); TL (snd p)]) o.
+Definition oTriple (o : outcome (list Z * list Z * list Z)) : side :=
+  omap (fun t => let '(g, x, y) := t in [TL g; TL x; TL y]) o.
+(* Result<Uint, ParseError> *)
+Definition bcerr_toks (e : BaseConv.bcerr) : list tok :=
+  match e with
+  | BaseConv.BOverflow => [TZ 1]
+  | BaseConv.BInvalidBase b => [TZ 2; TZ b]
+  | BaseConv.BInvalidDigit d b => [TZ 3; TZ d; TZ b]
+  end.
+Definition pres_toks (r : BaseConv.res Str.perr (list Z)) : list tok :=
+  match r with
+  | BaseConv.Ok v => [TL v]
+  | BaseConv.Err (Str.PInvalidDigit c) => [TErr 0x14; TZ c]
+  | BaseConv.Err (Str.PInvalidRadix r) => [TErr 0x15; TZ r]
+  | BaseConv.Err (Str.PBase e) => TErr 0x16 :: bcerr_toks e
+  end.
+Definition oP (o : outcome (BaseConv.res Str.perr (list Z))) : side := omap pres_toks o.
+(* a &str argument: the chars of the UTF-8 token (wf demands valid UTF-8) *)
+Definition with_text (text : list Z) (k : list Z -> side * side) : side * side :=
+  match Str.utf8_decode text with Some cs => k cs | None => (DebugPanic, DebugPanic) end.
 Definition with_prim (ty : Z) (k : Conv.prim -> side * side) : side * side :=
   match Conv.prim_of_code ty with Some p => k p | None => (DebugPanic, DebugPanic) end.
 (* usize::try_from(k).unwrap_or(usize::MAX): the amount the inherent shift is called with *)
@@ -183,8 +178,9 @@ Definition sides (c : call) : side * side :=
   match c with
   | op_add bits shape a b => (sU (Facade.op_add bits shape a b), sU (Add.wrapping_add bits a b))
   | op_sub bits shape a b => (sU (Facade.op_sub bits shape a b), sU (Add.wrapping_sub bits a b))
-  | op_mul _ _ _ _ obs | op_div _ _ _ _ obs | op_rem _ _ _ _ obs =>
-      (forward (side_of_obs obs), side_of_obs obs)
+  | op_mul bits shape a b => (oU (Facade.op_mul bits shape a b), oU (Mul.wrapping_mul bits a b))
+  | op_div bits shape a b => (oU (Facade.op_div shape a b), oU (UDiv.wrapping_div a b))
+  | op_rem bits shape a b => (oU (Facade.op_rem shape a b), oU (UDiv.wrapping_rem a b))
   | op_neg bits shape a => (sU (Facade.op_neg bits shape a), sU (Add.wrapping_neg bits a))
   | op_not bits shape a => (sU (Facade.op_not bits shape a), sU (Bits.unot bits a))
   | op_bitor bits shape a b => (oU (Facade.op_bit 0 shape a b), oU (Conv.from_limbs bits (map2 Z.lor a b)))
@@ -200,7 +196,8 @@ Definition sides (c : call) : side * side :=
       (sU (Facade.op_shr_uint bits shape a k), sU (Shift.wrapping_shr bits a (usize_sat k)))
   | it_sum bits shape xs =>
       (sU (Facade.it_sum bits shape xs), sU (fold_left (Add.wrapping_add bits) xs (uZERO bits)))
-  | it_product _ _ _ obs => (forward (side_of_obs obs), side_of_obs obs)
+  | it_product bits shape xs =>
+      (oU (Facade.it_product bits shape xs), oU (Mul.fold_mul bits xs (Bits.uONE bits)))
   | bw_reverse_bits bits a => (sU (Facade.bw_reverse_bits bits a), sU (Bits.reverse_bits bits a))
   | bw_not bits shape a => (sU (Facade.bw_not bits shape a), sU (Bits.unot bits a))
   | bw_count bits k a =>
@@ -225,7 +222,11 @@ Definition sides (c : call) : side * side :=
   | bw_try_from_le_slice bits bs => (oOpt (Facade.bw_try_from_le_slice bits bs), oOpt (Bytes.try_from_le_slice bits bs))
   | bw_from_be_bytes bits bs => (oU (Facade.bw_from_be_bytes bits bs), oU (Bytes.from_be_bytes bits bs))
   | bw_from_le_bytes bits bs => (oU (Facade.bw_from_le_bytes bits bs), oU (Bytes.from_le_bytes bits bs))
-  | bw_from_str_radix _ _ _ obs | bw_from_str _ _ obs => (forward (side_of_obs obs), side_of_obs obs)
+  | bw_from_str_radix bits radix text =>
+      with_text text (fun cs =>
+        (oP (Facade.bw_from_str_radix bits cs radix), oP (Str.from_str_radix bits cs radix)))
+  | bw_from_str bits text =>
+      with_text text (fun cs => (oP (Facade.bw_from_str bits cs), oP (Str.from_str bits cs)))
   | bw_from_limbs bits l => (oU (Facade.bw_from_limbs bits l), oU (Conv.from_limbs bits l))
   | bw_ident bits k a => (sU (Facade.bw_ident k a), sU a)
   | bw_consts bits =>
@@ -249,17 +250,24 @@ Definition sides (c : call) : side * side :=
   | nt_to_be_bytes bits a => (sY (Facade.nt_to_be_bytes bits a), sY (Bytes.to_be_bytes_vec bits a))
   | nt_checked_add bits a b => (sOpt (Facade.nt_checked_add bits a b), sOpt (Add.checked_add bits a b))
   | nt_checked_sub bits a b => (sOpt (Facade.nt_checked_sub bits a b), sOpt (Add.checked_sub bits a b))
-  | nt_checked_mul _ _ _ obs | nt_checked_div _ _ _ obs | nt_checked_rem _ _ _ obs
-  | nt_checked_div_euclid _ _ _ obs | nt_checked_rem_euclid _ _ _ obs
-  | nt_div_euclid _ _ _ obs | nt_rem_euclid _ _ _ obs | nt_inv _ _ obs
-  | nt_saturating_mul _ _ _ obs | nt_wrapping_mul _ _ _ obs | nt_overflowing_mul _ _ _ obs
-  | nt_from_str_radix _ _ _ obs | nt_pow _ _ _ obs =>
-      (forward (side_of_obs obs), side_of_obs obs)
-  | nt_pow_u32 bits a n obs =>
-      (* facade: self.pow(Self::from(exp)); harness reference: x.pow(U::from(n)): Uint::from panics
-         when the exponent does not fit BITS; obs = the observed pow result otherwise *)
-      (Facade.nt_pow_u32 bits n (side_of_obs obs),
-       do _ <- Conv.from_of (Conv.try_from_prim bits Facade.prim_u32 n); side_of_obs obs)
+  | nt_checked_mul bits a b => (sOpt (Facade.nt_checked_mul bits a b), sOpt (Mul.checked_mul bits a b))
+  | nt_checked_div bits a b => (oOpt (Facade.nt_checked_div bits a b), oOpt (UDiv.checked_div bits a b))
+  | nt_checked_rem bits a b => (oOpt (Facade.nt_checked_rem bits a b), oOpt (UDiv.checked_rem bits a b))
+  | nt_checked_div_euclid bits a b =>
+      (oOpt (Facade.nt_checked_div_euclid bits a b), oOpt (UDiv.checked_div bits a b))
+  | nt_checked_rem_euclid bits a b =>
+      (oOpt (Facade.nt_checked_rem_euclid bits a b), oOpt (UDiv.checked_rem bits a b))
+  | nt_div_euclid bits a b => (oU (Facade.nt_div_euclid a b), oU (UDiv.wrapping_div a b))
+  | nt_rem_euclid bits a b => (oU (Facade.nt_rem_euclid a b), oU (UDiv.wrapping_rem a b))
+  | nt_inv bits a => (oOpt (Facade.nt_inv bits a), oOpt (Mul.inv_ring bits a))
+  | nt_saturating_mul bits a b => (sU (Facade.nt_saturating_mul bits a b), sU (Mul.saturating_mul bits a b))
+  | nt_wrapping_mul bits a b => (oU (Facade.nt_wrapping_mul bits a b), oU (Mul.wrapping_mul bits a b))
+  | nt_overflowing_mul bits a b =>
+      (sPair (Facade.nt_overflowing_mul bits a b), sPair (Mul.overflowing_mul bits a b))
+  | nt_from_str_radix bits radix text =>
+      with_text text (fun cs =>
+        (oP (Facade.nt_from_str_radix bits cs radix), oP (Str.from_str_radix bits cs (as_usize radix))))
+  | nt_pow bits a e => (oU (Facade.nt_pow bits a e), oU (Pow.pow bits a e))
   | nt_checked_neg bits a => (sOpt (Facade.nt_checked_neg bits a), sOpt (Add.checked_neg bits a))
   | nt_checked_shl bits a n => (sOpt (Facade.nt_checked_shl bits a n), sOpt (Shift.checked_shl bits a (as_usize n)))
   | nt_checked_shr bits a n => (sOpt (Facade.nt_checked_shr bits a n), sOpt (Shift.checked_shr bits a (as_usize n)))
@@ -302,10 +310,21 @@ Definition sides (c : call) : side * side :=
       (oU (Facade.nt_swap_bytes bits a), oOpt (Bytes.try_from_le_slice bits (Bytes.to_be_bytes_vec bits a)))
   | nt_to_le bits a | nt_from_le bits a => (oU (Facade.nt_to_le bits a), sOpt (Some a))
   | nt_reverse_bits bits a => (sU (Facade.nt_reverse_bits bits a), sU (Bits.reverse_bits bits a))
-  | ni_div_floor _ _ _ obs | ni_mod_floor _ _ _ obs | ni_gcd _ _ _ obs | ni_div_ceil _ _ _ obs
-  | ni_div_rem _ _ _ obs | ni_div_mod_floor _ _ _ obs | ni_extended_gcd _ _ _ obs =>
-      (forward (side_of_obs obs), side_of_obs obs)
-  | ni_lcm _ _ _ obs => (unwrap_side (side_of_obs obs), side_of_obs obs)
+  | nt_pow_u32 bits a n =>
+      (* harness reference: x.pow(U::from(n)) *)
+      (oU (Facade.nt_pow_u32 bits a n),
+       oU (do e <- Conv.from_of (Conv.try_from_prim bits Facade.prim_u32 n); Pow.pow bits a e))
+  | ni_div_floor bits a b => (oU (Facade.ni_div_floor a b), oU (UDiv.wrapping_div a b))
+  | ni_mod_floor bits a b => (oU (Facade.ni_mod_floor a b), oU (UDiv.wrapping_rem a b))
+  | ni_gcd bits a b => (oU (Facade.ni_gcd bits a b), oU (Gcd.gcd bits a b))
+  | ni_lcm bits a b => (oU (Facade.ni_lcm bits a b), oOpt (Gcd.lcm bits a b))
+  | ni_div_ceil bits a b => (oU (Facade.ni_div_ceil bits a b), oU (UDiv.div_ceil bits a b))
+  | ni_div_rem bits a b => (oPair (Facade.ni_div_rem a b), oPair (UDiv.div_rem a b))
+  | ni_div_mod_floor bits a b => (oPair (Facade.ni_div_mod_floor a b), oPair (UDiv.div_rem a b))
+  | ni_extended_gcd bits a b =>
+      (oTriple (Facade.ni_extended_gcd bits a b),
+       (* let (g, p, q, _sign) = U::gcd_extended(x, y) *)
+       oTriple (do r <- Gcd.gcd_extended bits a b; let '(g, x, y, _sign) := r in Val (g, x, y)))
   | ni_is_multiple_of bits a b =>
       (oB (Facade.ni_is_multiple_of bits a b),
        (* match x.checked_rem(y) { Some(r) => r.is_zero(), None => x.is_zero() } *)
@@ -358,6 +377,9 @@ Definition prim_valb (ty n : Z) : bool :=
   | Some p => (1 <=? ty) && (Conv.prim_min p <=? n) && (n <=? Conv.prim_max p)
   | None => false
   end.
+(* a &str: valid UTF-8 *)
+Definition textb (text : list Z) : bool :=
+  match Str.utf8_decode text with Some _ => true | None => false end.
 Definition prim128b (ty : Z) : bool := (ty =? 10) || (ty =? 4) || (ty =? 11) || (ty =? 5).
 
 Definition wfb (c : call) : bool :=
@@ -366,8 +388,8 @@ Definition wfb (c : call) : bool :=
   | op_bitor bits shape a b | op_bitand bits shape a b | op_bitxor bits shape a b
   | bw_bitor bits shape a b | bw_bitand bits shape a b | bw_bitxor bits shape a b =>
       (0 <=? bits) && shapeb shape 6 && canonb bits a && canonb bits b
-  | op_mul bits shape a b obs | op_div bits shape a b obs | op_rem bits shape a b obs =>
-      (0 <=? bits) && shapeb shape 6 && canonb bits a && canonb bits b && obs_okb bits obs
+  | op_mul bits shape a b | op_div bits shape a b | op_rem bits shape a b =>
+      (0 <=? bits) && shapeb shape 6 && canonb bits a && canonb bits b
   | op_neg bits shape a | op_not bits shape a | bw_not bits shape a | zz_zeroize bits shape a =>
       (0 <=? bits) && shapeb shape 2 && canonb bits a
   | op_shl bits ty shape a n | op_shr bits ty shape a n =>
@@ -375,8 +397,8 @@ Definition wfb (c : call) : bool :=
   | op_shl_uint bits shape a k | op_shr_uint bits shape a k =>
       (0 <=? bits) && (bits <? B) && shapeb shape 4 && canonb bits a && canonb bits k
   | it_sum bits shape xs => (0 <=? bits) && shapeb shape 2 && forallb (canonb bits) xs
-  | it_product bits shape xs obs =>
-      (0 <=? bits) && shapeb shape 2 && forallb (canonb bits) xs && obs_okb bits obs
+  | it_product bits shape xs =>
+      (0 <=? bits) && shapeb shape 2 && forallb (canonb bits) xs
   | bw_reverse_bits bits a | nt_is_zero bits a | nt_is_one bits a | nt_to_le_bytes bits a
   | nt_to_be_bytes bits a | nt_checked_neg bits a | nt_wrapping_neg bits a | nt_swap_bytes bits a
   | nt_to_be bits a | nt_from_be bits a | nt_to_le bits a | nt_from_le bits a
@@ -396,13 +418,13 @@ Definition wfb (c : call) : bool :=
   | nt_signed_shl bits a n | nt_signed_shr bits a n | nt_unsigned_shl bits a n
   | nt_unsigned_shr bits a n =>
       (0 <=? bits) && canonb bits a && u32b n
-  | nt_pow_u32 bits a n obs => (0 <=? bits) && canonb bits a && u32b n && obs_okb bits obs
+  | nt_pow_u32 bits a n => (0 <=? bits) && canonb bits a && u32b n
   | bw_try_from_be_slice bits bs | bw_try_from_le_slice bits bs | bw_from_be_bytes bits bs
   | bw_from_le_bytes bits bs | nt_from_le_bytes bits bs | nt_from_be_bytes bits bs =>
       (0 <=? bits) && bytesb bs
-  | bw_from_str_radix bits radix text obs | nt_from_str_radix bits radix text obs =>
-      (0 <=? bits) && bytesb text && obs_okb bits obs
-  | bw_from_str bits text obs => (0 <=? bits) && bytesb text && obs_okb bits obs
+  | bw_from_str_radix bits radix text => (0 <=? bits) && usizeb radix && textb text
+  | nt_from_str_radix bits radix text => (0 <=? bits) && u32b radix && textb text
+  | bw_from_str bits text => (0 <=? bits) && textb text
   | bw_from_limbs bits l => (0 <=? bits) && Nat.eqb (length l) (nlimbsN bits) && wordsb l
   | bw_consts bits => 0 <=? bits
   | nt_const bits k => (0 <=? bits) && shapeb k 4
@@ -412,15 +434,15 @@ Definition wfb (c : call) : bool :=
       (0 <=? bits) && canonb bits a && canonb bits b
   | nt_saturating_add bits k a b | nt_saturating_sub bits k a b =>
       (0 <=? bits) && shapeb k 2 && canonb bits a && canonb bits b
-  | nt_checked_mul bits a b obs | nt_checked_div bits a b obs | nt_checked_rem bits a b obs
-  | nt_checked_div_euclid bits a b obs | nt_checked_rem_euclid bits a b obs
-  | nt_div_euclid bits a b obs | nt_rem_euclid bits a b obs | nt_saturating_mul bits a b obs
-  | nt_wrapping_mul bits a b obs | nt_overflowing_mul bits a b obs | nt_pow bits a b obs
-  | ni_div_floor bits a b obs | ni_mod_floor bits a b obs | ni_gcd bits a b obs
-  | ni_lcm bits a b obs | ni_div_ceil bits a b obs | ni_div_rem bits a b obs
-  | ni_div_mod_floor bits a b obs | ni_extended_gcd bits a b obs =>
-      (0 <=? bits) && canonb bits a && canonb bits b && obs_okb bits obs
-  | nt_inv bits a obs => (0 <=? bits) && canonb bits a && obs_okb bits obs
+  | nt_checked_mul bits a b | nt_checked_div bits a b | nt_checked_rem bits a b
+  | nt_checked_div_euclid bits a b | nt_checked_rem_euclid bits a b
+  | nt_div_euclid bits a b | nt_rem_euclid bits a b | nt_saturating_mul bits a b
+  | nt_wrapping_mul bits a b | nt_overflowing_mul bits a b | nt_pow bits a b
+  | ni_div_floor bits a b | ni_mod_floor bits a b | ni_gcd bits a b
+  | ni_lcm bits a b | ni_div_ceil bits a b | ni_div_rem bits a b
+  | ni_div_mod_floor bits a b | ni_extended_gcd bits a b =>
+      (0 <=? bits) && canonb bits a && canonb bits b
+  | nt_inv bits a => (0 <=? bits) && canonb bits a
   | nt_mul_add bits shape a b c =>
       (0 <=? bits) && shapeb shape 2 && canonb bits a && canonb bits b && canonb bits c
   | nt_to_prim bits ty a => (0 <=? bits) && prim128b ty && canonb bits a
@@ -443,7 +465,7 @@ Fixpoint split_sep (t : list tok) : option (list tok * list tok) :=
 (* facades whose signature cannot express the inherent method's None: they unwrap *)
 Definition unwraps (c : call) : bool :=
   match c with
-  | nt_from_le_bytes _ _ | nt_from_be_bytes _ _ | ni_lcm _ _ _ _
+  | nt_from_le_bytes _ _ | nt_from_be_bytes _ _ | ni_lcm _ _ _
   | nt_swap_bytes _ _ | nt_to_be _ _ | nt_from_be _ _ | nt_to_le _ _ | nt_from_le _ _ => true
   | _ => false
   end.
@@ -485,7 +507,7 @@ Definition extra (c : call) (f : list tok) : bool :=
   | ni_inc bits a => toks_eqb f [U bits (modp2 (eval a + 1) bits)]
   | ni_dec bits a => toks_eqb f [U bits (modp2 (eval a - 1) bits)]
   | zz_zeroize bits _ _ => toks_eqb f [U bits 0]
-  | nt_pow_u32 bits _ n _ => if 2 ^ bits <=? n then toks_eqb f [PANICKED] else true
+  | nt_pow_u32 bits _ n => if 2 ^ bits <=? n then toks_eqb f [PANICKED] else true
   | _ => true
   end.
 
